@@ -142,7 +142,12 @@ Print Assumptions C10_built_construct_verifies.
 
 (* ---- OpDef.verify as a whole ------------------------------------------------------------
    Threading the ConstraintContext through all checks is the same as the existence of ONE
-   assignment of the constraint variables satisfying every (constraint, value) pair. *)
+   assignment of the constraint variables satisfying every (constraint, value) pair.
+   The value universe A holds attributes AND ints (of_int / as_int in Model.v), the keys of the
+   assignment cover attribute variables (VarConstraint) AND integer variables (IntVarConstraint:
+   segment lengths through RangeOf(..).of_length(..), IntAttr payloads through IntAttr.constr(..));
+   a variable is bound on its first occurrence -- whatever the value, 0 included -- and compared on
+   every later one. *)
 Theorem C10_constraint_threading_iff :
   forall A A_eqb, (forall a b : A, A_eqb a b = true <-> a = b) ->
   forall base ps, consistent A base (map fst ps) ->
@@ -152,25 +157,27 @@ Print Assumptions C10_constraint_threading_iff.
 
 (* OpDef.verify accepts exactly the valid operations (op_valid: the four lists split into the
    declared segments, single-block regions, required properties/attributes present, no undeclared
-   property, and all pieces, properties and attributes satisfy their constraints under one variable
-   assignment).  PARTIAL for the pinned code: op_disciplined (attr-sized size vectors are
+   property, and all pieces, segment LENGTHS, properties and attributes satisfy their constraints
+   under one assignment of the attribute and integer variables: op_pairs lists, for a
+   variadic/optional segment with a length constraint, the pair (length constraint, of_int (len seg))
+   before its elements, and for an IntAttr-constrained property the pair (int constraint, payload)).  PARTIAL for the pinned code: op_disciplined (attr-sized size vectors are
    non-negative and sum to the list length) and def_nonvacuous (a same-size option comes with a
    variadic definition) exclude the two refuted cases and are vacuous for the repaired code;
    def_consistent: all uses of a variable carry the same base constraint. *)
 Theorem C10_verify_iff :
   forall A A_eqb, (forall a b : A, A_eqb a b = true <-> a = b) ->
-  forall v d x o,
+  forall v of_int as_int d x o,
   get_accessors A v d = Ok x -> op_disciplined A v d o -> def_nonvacuous A v d -> def_consistent A d ->
-  (opdef_verify A A_eqb v d x o = Ok tt <-> op_valid A d o).
+  (opdef_verify A A_eqb v of_int as_int d x o = Ok tt <-> op_valid A of_int as_int d o).
 Proof. exact opdef_verify_iff. Qed.
 Print Assumptions C10_verify_iff.
 
 (* FULL statement once both repairs are in the code *)
 Theorem C10_verify_iff_repaired :
   forall A A_eqb, (forall a b : A, A_eqb a b = true <-> a = b) ->
-  forall d x o,
+  forall of_int as_int d x o,
   get_accessors A v_repaired d = Ok x -> def_consistent A d ->
-  (opdef_verify A A_eqb v_repaired d x o = Ok tt <-> op_valid A d o).
+  (opdef_verify A A_eqb v_repaired of_int as_int d x o = Ok tt <-> op_valid A of_int as_int d o).
 Proof. exact opdef_verify_iff_repaired. Qed.
 Print Assumptions C10_verify_iff_repaired.
 
@@ -179,7 +186,7 @@ Print Assumptions C10_verify_iff_repaired.
    (no size condition is left: the constructor's output always segments correctly). *)
 Theorem C10_built_verifies :
   forall A A_eqb, (forall a b : A, A_eqb a b = true <-> a = b) ->
-  forall v d x b o,
+  forall v of_int as_int d x b o,
   get_accessors A v d = Ok x -> irdl_op_init A d b = Ok o ->
   def_nonvacuous A v d -> same_nonvacuous v (d_sucopt A d) (d_succs A d) -> def_consistent A d ->
   run (x_operands x) (o_opseg A o) (o_operands A o)
@@ -189,29 +196,45 @@ Theorem C10_built_verifies :
   run (x_regions x) (o_regseg A o) (o_regions A o)
     = expected (map (rkind A) (d_regions A d)) (map norm (b_regions A b)) /\
   run (x_succs x) (o_sucseg A o) (o_succs A o) = expected (d_succs A d) (map norm (b_succs A b)) /\
-  (opdef_verify A A_eqb v d x o = Ok tt <->
+  (opdef_verify A A_eqb v of_int as_int d x o = Ok tt <->
    single_ok A (d_regions A d) (map norm (b_regions A b)) /\
-   present_ok A (d_props A d) (b_props A b) /\ b_extra_prop A b = false /\
-   present_ok A (d_attrs A d) (b_attrs A b) /\
-   exists sg, all_sat A sg (built_pairs A d b)).
+   present_ok A of_int as_int (d_props A d) (b_props A b) /\ b_extra_prop A b = false /\
+   present_ok A of_int as_int (d_attrs A d) (b_attrs A b) /\
+   exists sg, all_sat A sg (built_pairs A of_int as_int d b)).
 Proof. exact built_op_verifies. Qed.
 Print Assumptions C10_built_verifies.
 
 (* ---- non-vacuity / witnesses by computation -----------------------------------------------
-   ex_def / ex_op (end of C10/ProofsVerify.v): operands = variadic V0 in {1,2} + single V0 in {1,2},
-   attr-sized; one optional result V0; two same-size variadic successors; a required property = 7;
-   ex_op seg res: three operands of type 2, operandSegmentSizes = seg, result types res *)
+   ex_def / ex_op_p (end of C10/ProofsVerify.v): operands = variadic V0 in {1,2} of length N + single
+   V0 in {1,2}, attr-sized; one optional result V0; two same-size variadic successors; a required
+   IntAttr property whose payload is N;
+   ex_op_p seg res p: three operands of type 2, operandSegmentSizes = seg, result types res,
+   property value p (1000 + k = IntAttr(k)); ex_op seg res = ex_op_p seg res 1002 *)
 Example C10_nonvacuous :
-  define_and_verify Z Z.eqb v_pinned ex_def (ex_op [2; 1] [2]) = Ok tt /\           (* valid *)
-  define_and_verify Z Z.eqb v_pinned ex_def (ex_op [2; 1] [1]) = Raise VerifyException /\  (* V0 inconsistent *)
-  define_and_verify Z Z.eqb v_pinned ex_def (ex_op [2; 1] [2; 2]) = Raise VerifyException /\ (* two results *)
-  define_and_verify Z Z.eqb v_pinned ex_def (ex_op [1; 1] [2]) = Ok tt /\          (* DEFECT: sum 2 <> 3 operands *)
-  define_and_verify Z Z.eqb v_pinned ex_def (ex_op [-1; 1] [2]) = Ok tt /\         (* DEFECT: negative size *)
-  define_and_verify Z Z.eqb v_pinned ex_def (ex_op [5; 1] [2]) = Raise IndexError /\ (* DEFECT: crash *)
-  define_and_verify Z Z.eqb v_repaired ex_def (ex_op [2; 1] [2]) = Ok tt /\
-  define_and_verify Z Z.eqb v_repaired ex_def (ex_op [1; 1] [2]) = Raise VerifyException /\
-  define_and_verify Z Z.eqb v_repaired ex_def (ex_op [-1; 1] [2]) = Raise VerifyException /\
-  define_and_verify Z Z.eqb v_repaired ex_def (ex_op [5; 1] [2]) = Raise VerifyException.
+  define_and_verify Z Z.eqb v_pinned zof_int zas_int ex_def (ex_op [2; 1] [2]) = Ok tt /\           (* valid *)
+  define_and_verify Z Z.eqb v_pinned zof_int zas_int ex_def (ex_op [2; 1] [1]) = Raise VerifyException /\  (* V0 inconsistent *)
+  define_and_verify Z Z.eqb v_pinned zof_int zas_int ex_def (ex_op [2; 1] [2; 2]) = Raise VerifyException /\ (* two results *)
+  define_and_verify Z Z.eqb v_pinned zof_int zas_int ex_def (ex_op_p [1; 1] [2] 1001) = Ok tt /\          (* DEFECT: sum 2 <> 3 operands *)
+  define_and_verify Z Z.eqb v_pinned zof_int zas_int ex_def (ex_op [-1; 1] [2]) = Ok tt /\         (* DEFECT: negative size *)
+  define_and_verify Z Z.eqb v_pinned zof_int zas_int ex_def (ex_op [5; 1] [2]) = Raise IndexError /\ (* DEFECT: crash *)
+  define_and_verify Z Z.eqb v_repaired zof_int zas_int ex_def (ex_op [2; 1] [2]) = Ok tt /\
+  define_and_verify Z Z.eqb v_repaired zof_int zas_int ex_def (ex_op [1; 1] [2]) = Raise VerifyException /\
+  define_and_verify Z Z.eqb v_repaired zof_int zas_int ex_def (ex_op [-1; 1] [2]) = Raise VerifyException /\
+  define_and_verify Z Z.eqb v_repaired zof_int zas_int ex_def (ex_op [5; 1] [2]) = Raise VerifyException.
+Proof. vm_compute. repeat split; reflexivity. Qed.
+
+(* integer variables: ex_len_def = three attr-sized variadic operand segments sharing the length
+   variable N; equal lengths (0 included) verify, (0,0,3) and (0,1,1) -- a variable bound to 0 is
+   bound -- do not; ex_def's IntAttr property shares N with the length of its variadic operand *)
+Example C10_int_variables :
+  define_and_verify Z Z.eqb v_repaired zof_int zas_int ex_len_def (ex_len_op [2; 2; 2]) = Ok tt /\
+  define_and_verify Z Z.eqb v_repaired zof_int zas_int ex_len_def (ex_len_op [0; 0; 0]) = Ok tt /\
+  define_and_verify Z Z.eqb v_repaired zof_int zas_int ex_len_def (ex_len_op [0; 0; 3]) = Raise VerifyException /\
+  define_and_verify Z Z.eqb v_repaired zof_int zas_int ex_len_def (ex_len_op [0; 1; 1]) = Raise VerifyException /\
+  define_and_verify Z Z.eqb v_repaired zof_int zas_int ex_len_def (ex_len_op [1; 1; 2]) = Raise VerifyException /\
+  define_and_verify Z Z.eqb v_repaired zof_int zas_int ex_def (ex_op_p [2; 1] [2] 1002) = Ok tt /\
+  define_and_verify Z Z.eqb v_repaired zof_int zas_int ex_def (ex_op_p [2; 1] [2] 1000) = Raise VerifyException /\
+  define_and_verify Z Z.eqb v_repaired zof_int zas_int ex_def (ex_op_p [2; 1] [2] 2) = Raise VerifyException.
 Proof. vm_compute. repeat split; reflexivity. Qed.
 
 (* the hypotheses of C10_verify_iff are satisfiable by a non-trivial operation (any version) *)
